@@ -653,10 +653,11 @@ def check_doubling(opname, family, per_size, res, part):
             # python-level calls: deterministic step count; quadratic work shows as a ratio -> 4
             # (measured on the unchanged tree: every linear operation has ratio <= 2.002, the
             #  quadratic ones >= 3.5)
-            if x["calls"] and y["calls"] > 2.25 * x["calls"] + 2000:
+            xs, ys = x["calls"] + x.get("jumps", 0), y["calls"] + y.get("jumps", 0)
+            if x["calls"] and ys > 2.25 * xs + 2000:
                 res.violation(part, "superlinear:%s:%s" % (op, opclass(opname)),
                               "%s of %s %s: python-level calls grow from %d (n=%d) to %d (n=%d): super-linear"
-                              % (op, opname, family, x["calls"], a, y["calls"], c),
+                              % (op, opname, family, xs, a, ys, c),
                               {"operator": opname, "family": family, "n": c, "op": op, "double_from": a})
 
 
@@ -734,7 +735,8 @@ def run(ctx):
     ctx.assumptions = [
         "work = invocations of walker callbacks (walker.functions entries), DagWalker machine steps, "
         "FormulaManager.create_node calls, parser atom/get_expression calls, counted by wrappers installed from "
-        "outside; Python-level calls (sys.setprofile) only as a step budget and for the super-linear growth test",
+        "outside; Python-level calls and loop iterations (sys.monitoring PY_START / backward JUMP events) only as a step "
+        "budget (calls) and for the super-linear growth test (calls + loop iterations)",
         "leaves of each sort are cycled over %d symbols" % NLEAF,
         "size-dag and size-booldag run their recursion test at depth %d (they keep a set of all sub-nodes per node)"
         % DEEP_SETSIZE,
